@@ -648,6 +648,15 @@ func concStream(o *Out, rng *rand.Rand, n int) {
 		}
 	}
 	scs = append(scs, cScenario{Name: "mem-gc", Kind: "mem", Shards: 1, Setup: baseSetup, Clock: c1, Threads: []cOp{gc, p("puts", ihA, 1, 1), p("dell", ihA, 2, 1)}})
+	// a swarm emptied and re-created (other thread: delete the last member; third thread: a new member) between the pass's
+	// snapshot of the shard and its step for that swarm: the step must look at the swarm that exists NOW
+	for _, shards := range []int{1, 2} {
+		one := []cSetup{{stale, p("puts", ihB, 1, 1)}, {stale, p("putl", ihA, 2, 1)}}
+		scs = append(scs, cScenario{Name: "mem-gc-recreate", Kind: "mem", Shards: shards, Setup: one, Clock: c1, Threads: []cOp{gc, p("dels", ihB, 1, 1), p("puts", ihB, 8, 1)}})
+		scs = append(scs, cScenario{Name: "mem-gc-recreate", Kind: "mem", Shards: shards, Setup: one, Clock: c1, Threads: []cOp{gc, p("dell", ihA, 2, 1), p("putl", ihA, 8, 1)}})
+		scs = append(scs, cScenario{Name: "mem-gc-recreate", Kind: "mem", Shards: shards, Setup: one, Clock: c1, Threads: []cOp{gc,
+			{T: "ann", IH: ihB, PID: mkID(1), IP: hx([]byte{10, 0, 0, 1}), Port: 1, Left: 0, Ev: 3, NW: 5}, {T: "ann", IH: ihB, PID: mkID(5), IP: hx([]byte{10, 0, 0, 5}), Port: 1, Left: 7, NW: 1}}})
+	}
 	// ---- redis store: whole operations interleaved at round-trip granularity, 1-2 instances
 	rOps := []cOp{p("puts", ihA, 2, 1), p("putl", ihA, 1, 1), p("dels", ihA, 1, 1), p("dell", ihA, 2, 1), p("grad", ihA, 2, 1), p("grad", ihA, 4, 1), p("puts", ihA, 1, 1), p("putl", ihA, 2, 1),
 		{T: "ann", IH: ihA, PID: mkID(2), IP: hx([]byte{10, 0, 0, 2}), Port: 1, Left: 0, Ev: 3, NW: 5}, p("puts", ihB, 1, 1)}
